@@ -40,6 +40,18 @@ int file_write(const char *filename, AsmContext *asm_context, int file_type)
 
   if (out == NULL) { return -1; }
 
+  // A source without a .<cpu> directive is assembled as MSP430 (see
+  // AsmContext::init()) and leaves cpu_list_index at -1.
+  int cpu_index = asm_context->cpu_list_index;
+
+  if (cpu_index < 0)
+  {
+    for (cpu_index = 0; cpu_list[cpu_index].name != NULL; cpu_index++)
+    {
+      if (cpu_list[cpu_index].type == CPU_TYPE_MSP430) { break; }
+    }
+  }
+
   if (file_type == FILE_TYPE_HEX)
   {
     write_hex(&asm_context->memory, out);
@@ -55,7 +67,7 @@ int file_write(const char *filename, AsmContext *asm_context, int file_type)
     write_srec(
       &asm_context->memory,
       out,
-      cpu_list[asm_context->cpu_list_index].srec_size);
+      cpu_list[cpu_index].srec_size);
   }
     else
   if (file_type == FILE_TYPE_ELF)
@@ -66,7 +78,7 @@ int file_write(const char *filename, AsmContext *asm_context, int file_type)
       &asm_context->symbols,
       asm_context->tokens.filename,
       asm_context->cpu_type,
-      cpu_list[asm_context->cpu_list_index].alignment);
+      cpu_list[cpu_index].alignment);
   }
     else
   if (file_type == FILE_TYPE_WDC)
@@ -87,7 +99,7 @@ int file_write(const char *filename, AsmContext *asm_context, int file_type)
       &asm_context->symbols,
       asm_context->tokens.filename,
       asm_context->cpu_type,
-      cpu_list[asm_context->cpu_list_index].alignment);
+      cpu_list[cpu_index].alignment);
   }
     else
   if (file_type == FILE_TYPE_UF2)
